@@ -213,7 +213,8 @@ def rand_tree(rng, depth=2, allow_window=True):
         return ["center", rand_tree(rng, depth - 1, False)]
     if r < 0.85:
         n = rng.randrange(0, 8)
-        pat = rng.choice([["", ") ", 1]] * 4 + [None, ["[", "] ", 0], ["", ". ", 5], ["#", " ", 98]])
+        # key patterns: the default, none, and custom ones — also ones that do NOT end in exactly one blank
+        pat = rng.choice([["", ") ", 1]] * 4 + [None, ["[", "] ", 0], ["", ". ", 5], ["#", " ", 98], ["[", "]", 1], ["", ")  ", 7], ["", ":", 0]])
         items = [rand_tree(rng, depth - 1, False) for _ in range(n)]
         if n >= 2 and rng.random() < 0.3:
             # the same text at two places of one container (build() makes it ONE shared widget object)
